@@ -74,6 +74,11 @@ func mutateWritten(rt *rapid.T, s []byte) ([]byte, string) {
 		}
 		return s, "equal"
 	case 3:
+		if len(s) > 2 && rapid.IntRange(0, 2).Draw(rt, "weakcollide") == 0 {
+			if w, ok := WeakCollide(s, blockEdgeOffset(rt, len(s), "wcoff")); ok {
+				return w, "three bytes changed by +1,-2,+1 (weak checksum preserved)"
+			}
+		}
 		if len(s) > 0 {
 			w := append([]byte{}, s...)
 			n := rapid.IntRange(1, 3).Draw(rt, "nflips")
